@@ -73,6 +73,39 @@ def run(chk):
                 costs = costs.copy()
                 costs[z[0]] = -100.0
                 ck = "zero_row_preferred"
+        if it >= len(corpus) and n >= 3 and rng.random() < 0.3:
+            if rng.random() < 0.7 or kind.startswith("allzero"):
+                B, kind = gen.matrix(rng, n, m, "generic")         # dense rows: the reflections leave rounding residue on the dependent row
+            # sensors whose residual becomes exactly zero once other sensors are ranked (a copy, a multiple, a sum of two rows), all of
+            # them made the preferred pivots by their costs: after the first ones are taken the dependent one removes no direction
+            B = B.copy()
+            costs = costs.copy()
+            i0, i1, i2 = (int(v) for v in rng.permutation(n)[:3])
+            form = int(rng.integers(0, 3))
+            if form == 0:
+                B[i1] = B[i0]
+                pref = [i0, i1]
+            elif form == 1:
+                B[i1] = B[i0] * float([-1.0, 2.0, 0.5, -3.0][int(rng.integers(0, 4))])
+                pref = [i0, i1]
+            else:
+                B[i2] = B[i0] + B[i1]
+                pref = [i0, i1, i2]
+            big = 4.0 * (1.0 + float(np.abs(B).max())) * m
+            for t, i in enumerate(pref):
+                costs[i] = -big * (len(pref) - t + 1)
+            kind, ck = kind + "+dependent", "dependent_row_preferred"
+            Bq = fr_mat(B)
+        elif it >= len(corpus) and n >= 3 and rng.random() < 0.12 and np.any(B):
+            # a faint but non-zero sensor (2^-60 of the others) made the preferred pivot: its direction is a real direction and has to go
+            B = B.copy()
+            costs = costs.copy()
+            nz = [i for i in range(n) if np.any(B[i])]
+            i0 = nz[int(rng.integers(0, len(nz)))]
+            B[i0] = B[i0] * 2.0 ** -60
+            costs[i0] = -4.0 * (1.0 + float(np.abs(B).max())) * m
+            kind, ck = kind + "+faint", "faint_row_preferred"
+            Bq = fr_mat(B)
         cq = [F(float(c)) for c in costs]
         case = {"B": B.tolist(), "kind": kind, "costs": costs.tolist(), "cost_kind": ck}
         try:
@@ -85,6 +118,23 @@ def run(chk):
                 chk.violation("impl", "ccqr-second-fit-differs", f"fitting the same CCQR object twice on the same matrix gives {piv} then {piv_again}; "
                               f"cost array modified: {not np.array_equal(user_costs, costs)}", {**case, "observed": [piv, piv_again]})
             qrp = [int(i) for i in QR().fit(B).get_sensors()]
+            if it >= len(corpus) and rng.random() < 0.5:
+                # the same object with OTHER costs afterwards (attribute, set_params, None): the ranking must follow the costs in force
+                costs_b, ck_b = gen.costs(rng, n)
+                how = int(rng.integers(0, 3))
+                if how == 0:
+                    opt.sensor_costs = costs_b.copy()
+                elif how == 1:
+                    opt.set_params(sensor_costs=costs_b.copy())
+                else:
+                    costs_b, ck_b = np.zeros(n), "none"
+                    opt.sensor_costs = None
+                piv_b = [int(i) for i in impl.quiet(opt.fit, B.copy()).get_sensors()]
+                ok_b, _, zp_b, _ = judge(Bq, [F(float(c)) for c in costs_b], piv_b[:k])
+                chk.count("costs_changed_on_the_same_object")
+                if not ok_b:
+                    chk.violation("impl", "ccqr-refit-ignores-new-costs", f"after the costs of the same CCQR object were changed ({ck} -> {ck_b}) the ranking {piv_b[:k]} "
+                                  f"does not maximise (residual norm - new cost)", {**case, "new_costs": costs_b.tolist(), "observed": piv_b})
         except Exception as e:
             chk.violation("impl", "ccqr-raises", f"CCQR.fit raised {type(e).__name__}: {e}", case)
             continue
